@@ -113,10 +113,12 @@ MANIFEST_TEXT = {
         note="Trusted: as C12. Regional default cells tagged pinned are not independent. One genuine defect found and repaired (ISM2400 DR2 M=248).",
         technique="Lean 4 proof by kernel evaluation over regenerated tables + differential correspondence"),
     "C14": dict(
-        text="The planner and the apply function (generic and US915/AU915 variants) are modelled statement by statement (LW/Model/Band.lean) and agree with the Go code on every generated history x device set; "
-             "the spec verdict checks on every Go result: applied set = network set restricted to what the device can know, every payload encodable, at most blocks+1 payloads, nothing when the device matches.",
-        note="Trusted: hook, model/driver comparison. The unbounded refinement theorem (C14_generic) is work in progress; until it is committed this check's proof obligations are the C15 state-machine lemmas it imports.",
-        technique="Lean 4 model + spec oracle on every planned/applied set (refinement proof in progress)"),
+        text="Lean refinement theorems for EVERY band state (any history) and every device channel set in any order: C14_generic (apply(plan) = target for plans of <= 128 channels), "
+             "C14_us915_au915 (both candidate plans, ChMaskCntl 6/7 semantics, shorter one chosen) with C14_us_reachable(_state) discharging its hypotheses on the regenerated configurations, "
+             "C14_noop, C14_encodable, C14_count(_us), C14_apply_total. The model is tied to the Go planner/apply by differential runs; every Go result is also judged against the target set.",
+        note="Trusted: Lean kernel; hook + dump; sort.Ints modelled as insertion sort (only membership and sortedness are used); the model's total lookup for uplinkChannels[c].custom (justified in LW/Model/Band.lean). "
+             "Hypotheses the proof forces: device indices inside the plan and at most 128 channels (beyond that ChMaskCntl > 7 is not encodable - recorded in DESIGN.md, outside the property's bounded custom channels).",
+        technique="Lean 4 proof (refinement: blocks emitted + pointwise effect of apply, induction over lists) + differential correspondence"),
     "C15": dict(
         text="Lean theorems about the channel-plan state machine for all states / all integer arguments (see LW/Props/C15.lean) and differential runs of random histories with full observation; spec verdicts on the Go observations: "
              "partitions, unaltered standard channels, lookups return matching channels, CFList content and MAC-layer encodability.",
